@@ -72,7 +72,7 @@ def _c14_nontrivial(sess, real):
     # at least one request of the session got a status line out through the return handler
     for l in real[1:]:
         f = l.split()
-        if len(f) == 4 and f[0] != "0":
+        if len(f) in (4, 6) and f[0] != "0":
             return True
     return False
 
@@ -93,7 +93,9 @@ PROPS["C14"] = {
         "sessions = one Flame (method, chain position, handler func type, optional custom ReturnHandler, optional pre-write) "
         "serving 1..n requests whose handler returns the listed values, plus `retseq` sessions: one Flame, each request one chain "
         "of up to 8 handlers that return values and/or Map a ReturnHandler into the request or app scope mid-chain (exhaustive "
-        "to depth 4/5 over a 9-step alphabet, then random); distinct by the op lines; non-trivial = at least one "
+        "to depth 4/5 over a 9-step alphabet, then random), plus `retnest` sessions: a nested request with its own func() (int, string) "
+        "handler is served (from a Before hook or from a custom ReturnHandler) while the outer handler's result is being rendered, "
+        "all pairings of fast/reflective invocation; distinct by the op lines; non-trivial = at least one "
         "request got a status line out through the return handler"),
     "known_match": no_known,
     "trusted_base": COMMON_TRUST + [
@@ -264,9 +266,19 @@ def _c18_stats(lines, sessions, R, M):
             ok = r == f[2]
             outcome["cookie-roundtrip-exact" if ok else "cookie-roundtrip-other"] = \
                 outcome.get("cookie-roundtrip-exact" if ok else "cookie-roundtrip-other", 0) + 1
+        if f[0] == "M":
+            # every write whose name is not written again later must read back its own value
+            names, vals, got = f[1::2], f[2::2], r.split(",")
+            last = all(got[i] == vals[i] for i in range(len(names)) if names[i] not in names[i + 1:]) \
+                if len(got) == len(names) else False
+            key = "multi-cookie-all-last-values-read" if last else "multi-cookie-other"
+            outcome[key] = outcome.get(key, 0) + 1
+            rel = any(a != b and (a.startswith(b) or b.startswith(a)) for a in names for b in names)
+            if rel:
+                outcome["multi-cookie-with-prefix-related-names"] = outcome.get("multi-cookie-with-prefix-related-names", 0) + 1
         if r not in zero and r != "panic":
             nt += 1
-            if len(samples) < 6 and f[0] in ("Q", "C", "K", "P") and len(l) > 24 and i % 7 == 0:
+            if len(samples) < 6 and f[0] in ("Q", "C", "K", "P", "M") and len(l) > 24 and i % 7 == 0:
                 samples.append({"op": l, "real": r})
     return {"distinct_ops": len(seen), "distinct_nontrivial": nt, "op_kinds": kinds, "outcomes": outcome,
             "rule": "cases = distinct operation lines (one accessor call on one real request, one cookie round trip, or one "
@@ -298,7 +310,9 @@ PROPS["C18"] = {
         "oracle protocol; the theorems assume only ParseFloat(\"\") = 0)",
         "modelled and differentially checked on every run, not verified: net/url QueryEscape/QueryUnescape/PathUnescape/parseQuery, "
         "net/http Cookie.String/sanitizeCookieValue/readCookies/parseCookieValue, strconv.Atoi/ParseInt/ParseBool, strings.TrimSpace",
-        "a client returns exactly the name=value part of the Set-Cookie header in one Cookie header line",
+        "the user agent between the two requests is modelled (Model/Access.lean clientJar, harness clientCookieHeader): it keeps the "
+        "name=value part of every non-empty Set-Cookie line, a later cookie of an EQUAL name replacing the stored one, and sends "
+        "all of them back in one Cookie header joined with \"; \"",
         "the bind-parameter map is taken as given (what Tree.Match stored: PathUnescape of the captured text, raw on error) — "
         "that it equals the captured text is property C02"],
     "assumptions": ["strconv.IntSize = 64 (printed by the harness and compared on every session)",
